@@ -1,6 +1,8 @@
 import Driver.KV
+import Driver.Shell
 
 def main (args : List String) : IO UInt32 := do
   match args with
   | ["kv"] => Driver.KV.main; return 0
-  | _ => IO.eprintln "usage: olpdriver <engine>  (engines: kv)"; return 2
+  | ["shell"] => Driver.Shell.main; return 0
+  | _ => IO.eprintln "usage: olpdriver <engine>  (engines: kv, shell)"; return 2
